@@ -380,8 +380,15 @@ func C19(c *runner.Cfg) *report.Result {
 			go caller(200+g, 8, &wg)
 		}
 		time.Sleep(time.Duration(r.Intn(800)) * time.Microsecond)
-		if st := hist.record(300, "close", func() status.Status { return cl.Close() }); !st.OK() {
-			res.Violate("c19:close-failed", fmt.Sprintf("Close returned %v", st), wit)
+		var closeSt status.Status
+		if !Bounded(c, res, "c19:close-never-returns", "Client.Close", func() {
+			closeSt = hist.record(300, "close", func() status.Status { return cl.Close() })
+		}) {
+			closed = true // do not call it again from the deferred cleanup
+			return
+		}
+		if !closeSt.OK() {
+			res.Violate("c19:close-failed", fmt.Sprintf("Close returned %v", closeSt), wit)
 		}
 		closed = true
 		// calls issued after Close returned
@@ -507,8 +514,8 @@ func C19(c *runner.Cfg) *report.Result {
 						held = append(held, ch)
 					}
 				}
-				time.Sleep(700 * time.Millisecond) // attempts with 50, 150, 350 ms of back-off
-				px.KillAll(true)                   // the first connection dies in the middle of the run
+				time.Sleep(700 * time.Millisecond)  // attempts with 50, 150, 350 ms of back-off
+				px.KillAll(true)                    // the first connection dies in the middle of the run
 				time.Sleep(1400 * time.Millisecond) // the pending 750 ms back-off and the attempts after it
 				for _, ch := range held {
 					ch.Free()
